@@ -2,6 +2,7 @@
 # Under the terms of Contract DE-NA0003525 with NTESS, the U.S. Government retains
 # certain rights in this software.
 import enum
+from numbers import Integral, Real
 
 from jaqalpaq.error import JaqalError
 
@@ -155,7 +156,7 @@ class Parameter(AnnotatedValue):
                     f"Type-checking failed: parameter {self.name}={value} does not have type {self.kind}."
                 )
         elif self.kind == ParamType.FLOAT:
-            if isinstance(value, float) or isinstance(value, int):
+            if isinstance(value, Real):
                 pass
             elif isinstance(value, AnnotatedValue) and value.kind in (
                 ParamType.INT,
@@ -168,8 +169,8 @@ class Parameter(AnnotatedValue):
                     f"Type-checking failed: parameter {self.name}={value} does not have type {self.kind}."
                 )
         elif self.kind == ParamType.INT:
-            if (isinstance(value, float) and value.is_integer()) or isinstance(
-                value, int
+            if isinstance(value, Integral) or (
+                isinstance(value, Real) and float(value).is_integer()
             ):
                 pass
             elif isinstance(value, AnnotatedValue) and value.kind in (
